@@ -14,3 +14,7 @@
 (define-fun spec.floatToInt ((f Float64)) Int
   (let ((b ((_ fp.to_sbv 64) RTZ f)))
     (ite (bvslt b #x0000000000000000) (- (bv2nat b) 18446744073709551616) (bv2nat b))))
+; limits (uint64 values as integers in [0, 2^64)): 0 means infinity
+(define-fun spec.limLe ((a Int) (b Int)) Bool (or (= b 0) (and (not (= a 0)) (<= a b))))
+(define-fun spec.atLimit ((v Int) (l Int)) Bool (and (not (= l 0)) (>= v l)))
+(define-fun spec.satAdd ((a Int) (b Int)) Int (ite (> (+ a b) 18446744073709551615) 18446744073709551615 (+ a b)))
